@@ -24,10 +24,11 @@ TRUSTED = [
 ASSUMPTIONS = [
     'domain doc_ok (coq/Yanny/Render.v): ASCII printable + tab; no double quote; no leading "{"; no "}" in array elements; '
     'the last scalar column does not end in a backslash; table/column/enum names are identifiers; table names distinct '
-    'after upper-casing; header keys are identifiers different from every table name',
+    'after upper-casing; header keys are distinct identifiers different from every table name; at least one comment line',
     'additional exclusions beyond the statement (the format cannot express them either): header values with leading/trailing '
-    'blanks, ending in a backslash or containing "{"; any string/comment containing the word "typedef"; control characters '
-    'other than tab; enum cells must be one of the labels; 2-D and zero-length subarrays',
+    'blanks, ending in a backslash or containing "{"; comments containing a backslash; any string, comment, column name, '
+    'label or header key containing the word "typedef"; control characters other than tab; enum cells must be one of the '
+    'labels; 2-D and zero-length subarrays',
     'float formatting/parsing is not modelled: the model carries float TEXT; bit-identity is checked on the real code',
 ]
 
@@ -41,7 +42,7 @@ UNSUPPORTED = ['u1', 'u2', 'u4', 'u8', 'i1', 'b1', 'f2', 'c8', 'c16', 'f16']
 def gen_jobs(ctx):
     rng = ctx.rng
     jobs = []
-    n = ctx.n(240, 4000)
+    n = ctx.n(420, 6000)
     for k in range(n):
         t = rng.random()
         entry = 'ndarray' if t < 0.62 else ('table_func' if t < 0.81 else 'table_write')
